@@ -77,9 +77,16 @@ var vhC06Inner = []string{
 	"{% include 'includer-of-libtop' %}",
 	"{% for i in xs %}{% from 'libtop' import m %}{% endfor %}",
 	"{% macro k() %}{% from 'libtop' import m %}{{ m(1) }}{% endmacro %}{{ k() }}",
+	// one name registered both as a filter and as a function: the policy answers for each separately
+	"{{ dual() }}{{ x|dual }}",
+	"{{ x|dual }}{{ dual() }}",
+	"{{ dual()|dual }}",
+	"{% for i in xs|dual %}{{ dual() }}{% endfor %}",
+	"{{ x|spy }}{{ x|spy }}{{ spyfn() }}{{ spyfn() }}",
 }
 
-func vhC06Engine(pol SecurityPolicy, spyF func(), spyFn func()) *Engine {
+func vhC06Engine(pol SecurityPolicy, spyFname func(string), spyFnname func(string)) *Engine {
+	spyF, spyFn := func() { spyFname("spy") }, func() { spyFnname("spyfn") }
 	e := New()
 	if pol != nil {
 		e.EnableSandbox(pol)
@@ -91,6 +98,14 @@ func vhC06Engine(pol SecurityPolicy, spyF func(), spyFn func()) *Engine {
 	e.AddFunction("spyfn", func(a ...interface{}) (interface{}, error) {
 		spyFn()
 		return 2, nil
+	})
+	e.AddFilter("dual", func(v interface{}, a ...interface{}) (interface{}, error) {
+		spyFname("dual")
+		return v, nil
+	})
+	e.AddFunction("dual", func(a ...interface{}) (interface{}, error) {
+		spyFnname("dual")
+		return "D", nil
 	})
 	e.RegisterString("leaf", "{{ x|spy }}{{ spyfn() }}")
 	e.RegisterString("mid", "{% include 'leaf' %}")
@@ -114,12 +129,12 @@ func VH_C06_Confine() {
 	}
 	symTag("inner:" + vhC06Inner[k])
 	pol := &vhPolicy{filt: map[string]bool{}, fn: map[string]bool{}}
-	e := vhC06Engine(pol, func() {
+	e := vhC06Engine(pol, func(n string) {
 		symCover("spy-filter-invoked")
-		symAssert(pol.IsFilterAllowed("spy"), "forbidden-filter-invoked")
-	}, func() {
+		symAssert(pol.IsFilterAllowed(n), "forbidden-filter-invoked")
+	}, func(n string) {
 		symCover("spy-fn-invoked")
-		symAssert(pol.IsFunctionAllowed("spyfn"), "forbidden-function-invoked")
+		symAssert(pol.IsFunctionAllowed(n), "forbidden-function-invoked")
 	})
 	if e.RegisterString("main", "[{% include 'inner' sandboxed %}]") != nil {
 		return
@@ -153,7 +168,7 @@ func VH_C06_Confine() {
 		}
 	} else {
 		symCover("all-allowed")
-		e2 := vhC06Engine(nil, func() {}, func() {})
+		e2 := vhC06Engine(nil, func(string) {}, func(string) {})
 		// reference: the inner template rendered directly, outside any sandbox
 		e2.RegisterString("inner", vhC06Inner[k])
 		want, werr := e2.Render("inner", ctx)
@@ -167,7 +182,7 @@ func VH_C06_Confine() {
 func VH_C06_Outside() {
 	pol := &vhPolicy{filt: map[string]bool{}, fn: map[string]bool{}}
 	calls := 0
-	e := vhC06Engine(pol, func() { calls++ }, func() { calls++ })
+	e := vhC06Engine(pol, func(string) { calls++ }, func(string) { calls++ })
 	e.RegisterString("inner", "i{{ x|upper }}")
 	if e.RegisterString("main", "{{ x|spy }}{% include 'inner' sandboxed %}{{ x|spy }}{{ spyfn() }}") != nil {
 		return
@@ -180,4 +195,42 @@ func VH_C06_Outside() {
 	} else {
 		symAssert(err != nil, "denied-name-fails-render")
 	}
+}
+
+// VH_C06_Revoke: the policy is consulted for what it says now. Between R renders of the same
+// sandboxed include the owner of the policy changes its answers (fresh symbolic answers per render);
+// a spy that runs must be allowed by the answers in force during that render.
+func VH_C06_Revoke() {
+	r := symParam("R", 2)
+	k := symChoice(4)
+	inner := []string{"{{ x|spy }}", "{{ spyfn() }}", "{{ x|spy }}{{ spyfn() }}", "{% for i in xs %}{{ i|spy }}{{ dual() }}{{ i|dual }}{% endfor %}"}[k]
+	symTag("inner:" + inner)
+	pol := &vhPolicy{filt: map[string]bool{}, fn: map[string]bool{}}
+	e := vhC06Engine(pol, func(n string) {
+		symCover("spy-filter-invoked")
+		symAssert(pol.IsFilterAllowed(n), "forbidden-filter-invoked")
+	}, func(n string) {
+		symCover("spy-fn-invoked")
+		symAssert(pol.IsFunctionAllowed(n), "forbidden-function-invoked")
+	})
+	e.RegisterString("inner", inner)
+	if e.RegisterString("main", "[{% include 'inner' sandboxed %}]") != nil {
+		return
+	}
+	ctx := map[string]interface{}{"x": "v", "xs": []interface{}{"a"}}
+	for i := 0; i < r; i++ {
+		pol.filt, pol.fn = map[string]bool{}, map[string]bool{}
+		_, err := e.Render("main", ctx)
+		denied := false
+		for _, b := range pol.filt {
+			denied = denied || !b
+		}
+		for _, b := range pol.fn {
+			denied = denied || !b
+		}
+		if denied {
+			symAssert(err != nil, "denied-name-fails-render")
+		}
+	}
+	symCover("rendered")
 }
